@@ -26,7 +26,7 @@ import (
 //   E2  calls of the redact-only helpers startPrint, rejectWrap
 //   E3  printVerbArg(a, v) stands for printArg(a, v)
 //   E4  func(params){ body }(same-named args) stands for body
-//   E5  if/else-if chains and type-switch arms whose condition or types
+//   E5  if/else-if chains, tagless switches and type-switch arms whose condition or types
 //       mention redact-specific names (the override, the registries, the
 //       wrapper/redactable type variables, handleSpecialValues, and anything
 //       selected from the interfaces/markers/wrappers packages)
@@ -129,6 +129,25 @@ func (a *auditor) eraseStmts(list []ast.Stmt) []ast.Stmt {
 		case *ast.RangeStmt:
 			x.Body.List = a.eraseStmts(x.Body.List)
 		case *ast.SwitchStmt:
+			// E5 in switch form: a tagless switch all of whose cases test
+			// redact-specific names is the same as such an if/else-if chain
+			if x.Tag == nil && len(x.Body.List) > 0 {
+				all := true
+				for _, c := range x.Body.List {
+					cc := c.(*ast.CaseClause)
+					if len(cc.List) == 0 {
+						all = false
+					}
+					for _, e := range cc.List {
+						if !a.mentionsRedact(e) {
+							all = false
+						}
+					}
+				}
+				if all {
+					continue
+				}
+			}
 			for _, c := range x.Body.List {
 				cc := c.(*ast.CaseClause)
 				cc.Body = a.eraseStmts(cc.Body)
